@@ -278,6 +278,30 @@ type want struct {
 	beforeP [][]string
 }
 
+func (w *want) flat() string {
+	var sb strings.Builder
+	str := func(x *rendered) {
+		if x == nil {
+			sb.WriteString("<rejected>")
+		} else {
+			sb.WriteString(x.String())
+			fmt.Fprint(&sb, x.keys)
+		}
+		sb.WriteString("\n")
+	}
+	str(w.listing)
+	for _, l := range [][][]*rendered{w.pages, w.after, w.before} {
+		for _, row := range l {
+			for _, x := range row {
+				str(x)
+			}
+		}
+	}
+	return sb.String()
+}
+
+func (w *want) same(o *want) bool { return w.flat() == o.flat() }
+
 type ctx struct {
 	r          *mc.Run
 	docs       []cdoc
@@ -290,6 +314,7 @@ type ctx struct {
 
 type engineCfg struct {
 	name   string
+	n      int // corpus size
 	oracle bx.Engine
 	shard  [nShards]bx.Engine
 }
@@ -444,44 +469,58 @@ func compare(exp, got *rendered, sizeZero bool, mode string, add func(what, deta
 	}
 }
 
-func Run(r *mc.Run) {
-	n := mc.Pick(r, 5, 6)
+func newCtx(r *mc.Run, n int) *ctx {
 	c := &ctx{r: r, docs: corpusAll[:n], qs: queries(r), ss: sorts(r)}
 	for i := 0; i <= n+1; i++ {
 		c.froms = append(c.froms, i)
 		c.sizes = append(c.sizes, i)
 	}
 	c.sizes = append(c.sizes, 11) // size+from > 10 switches the collector's store
-	c.afterSizes = mc.Pick(r, []int{1, 2, n + 1}, []int{1, 2, 3, n + 1})
+	c.afterSizes = []int{1, 2, n + 1}
+	return c
+}
 
+func Run(r *mc.Run) {
 	sc, ud := bx.MemEngines[0], bx.MemEngines[1]
-	cfgs := []engineCfg{{"scorch", sc, [nShards]bx.Engine{sc, sc, sc}}}
+	// the corpus size is part of the configuration: the 6-document corpus is run on scorch, the
+	// other member engines on the 5-document corpus (3^6 × the thorough request family × 3 engines
+	// would not fit the time box)
+	cfgs := []engineCfg{{"scorch", mc.Pick(r, 5, 6), sc, [nShards]bx.Engine{sc, sc, sc}}}
 	if !r.Quick() {
 		cfgs = append(cfgs,
-			engineCfg{"upsidedown", ud, [nShards]bx.Engine{ud, ud, ud}},
-			engineCfg{"mixed(scorch,upsidedown,scorch)", sc, [nShards]bx.Engine{sc, ud, sc}})
+			engineCfg{"upsidedown", 5, ud, [nShards]bx.Engine{ud, ud, ud}},
+			engineCfg{"mixed(scorch,upsidedown,scorch)", 5, sc, [nShards]bx.Engine{sc, ud, sc}})
 	}
-	nAssign := 1
-	for range c.docs {
-		nAssign *= nShards
+	pow := func(n int) int {
+		p := 1
+		for i := 0; i < n; i++ {
+			p *= nShards
+		}
+		return p
 	}
-	r.Rule(fmt.Sprintf("E2: every assignment of a %d-document corpus (ids; keyword k with duplicates/absent; numeric n with duplicates/absent; date d; multi-valued keyword t) to %d shards (%d assignments, empty and skewed shards included) × alias shapes {flat, alias(alias(s0,s1),s2), alias(alias(s0),alias(s1,s2)), two-member alias when s2 is empty, alias(alias(s0)) when s0 holds everything} × %d queries × %d score-independent total sorts × every From∈[0,%d] × Size∈[0,%d]∪{11} page × SearchAfter and SearchBefore from every hit of the full listing (keys = the alias's own DecodedSort values, sizes %v) × engines %d, every request with Fields=* and 4–5 facets (terms with size ≥ buckets, prefix-filtered terms, overlapping/open/empty numeric ranges, date ranges); oracle = the same request on one in-memory index of the same engine holding the whole corpus: Total, ordered ids, stored fields, facet buckets and Total/Missing/Other; an outcome is (mode, query, Total, number of hits)",
-		n, nShards, nAssign, len(c.qs), len(c.ss), n+1, n+1, c.afterSizes, len(cfgs)))
+	c0 := newCtx(r, cfgs[0].n)
+	n := cfgs[0].n
+	var cfgNames []string
+	for _, cfg := range cfgs {
+		cfgNames = append(cfgNames, fmt.Sprintf("%s:%d documents:%d assignments", cfg.name, cfg.n, pow(cfg.n)))
+	}
+	r.Rule(fmt.Sprintf("E2: every assignment of a corpus (ids; keyword k with duplicates/absent; numeric n with duplicates/absent; date d; multi-valued keyword t) to %d shards, empty and skewed shards included (member engines and corpus sizes: %v) × alias shapes {flat, alias(alias(s0,s1),s2), alias(alias(s0),alias(s1,s2)), two-member alias when s2 is empty, alias(alias(s0)) when s0 holds everything} × %d queries × %d score-independent total sorts × every From∈[0,%d] × Size∈[0,%d]∪{11} page × SearchAfter and SearchBefore from every hit of the full listing (keys = the alias's own DecodedSort values, sizes %v), every request with Fields=* and 4–5 facets (terms with size ≥ buckets, prefix-filtered terms, overlapping/open/empty numeric ranges, date ranges); oracle = the same request on one in-memory index of the same engine holding the whole corpus: Total, ordered ids, stored fields, facet buckets and Total/Missing/Other; an outcome is (mode, query, Total, number of hits)",
+		nShards, cfgNames, len(c0.qs), len(c0.ss), n+1, n+1, c0.afterSizes))
 	r.Assume("only score-independent total sort orders are in the property; scores, MaxScore and Took are not compared",
 		"facet sizes cover all buckets (property text); range facets are compared as name→count sets, terms facets also in order",
 		"a SearchAfter/SearchBefore request that the single index itself rejects is outside the property (the alias must then not succeed silently either)",
-		"all members share one mapping; members are in-memory indexes")
-	r.Note("assignments", nAssign)
+		"all members share one mapping; members are in-memory indexes",
+		"quick tier: the shape alias(alias(s0),alias(s1,s2)) is run only on assignments with an empty shard")
 	r.Note("queries", func() []string {
 		var l []string
-		for _, q := range c.qs {
+		for _, q := range c0.qs {
 			l = append(l, q.String())
 		}
 		return l
 	}())
 	r.Note("sorts", func() []string {
 		var l []string
-		for _, s := range c.ss {
+		for _, s := range c0.ss {
 			l = append(l, s.name)
 		}
 		return l
@@ -493,6 +532,8 @@ func Run(r *mc.Run) {
 			r.Cap("deadline before engine configuration " + cfg.name)
 			break
 		}
+		c := newCtx(r, cfg.n)
+		nAssign := pow(cfg.n)
 		single := cfg.oracle.Mk(m)
 		for _, d := range c.docs {
 			put(single, d)
@@ -507,6 +548,24 @@ func Run(r *mc.Run) {
 			}
 			w = ws[3][1]
 			r.Sample(map[string]any{"query": c.qs[3].String(), "sort": c.ss[1].name, "from": 0, "size": 0, "single_index_answer": w.pages[0][0].String()})
+		}
+		if cfg.shard[1].Name != cfg.oracle.Name {
+			// mixed member engines: the comparison is meaningful only where the two engines agree
+			// as single indexes (anything else is not the alias's doing): such families are skipped
+			other := cfg.shard[1].Mk(m)
+			for _, d := range c.docs {
+				put(other, d)
+			}
+			ws2 := c.oracle(other)
+			other.Close()
+			for q := range ws {
+				for s := range ws[q] {
+					if !ws[q][s].same(ws2[q][s]) {
+						ws[q][s] = nil
+						r.Count("mixed_engine_families_skipped_because_single_indexes_of_the_two_engines_differ", 1)
+					}
+				}
+			}
 		}
 		pends := make([]pending, nAssign)
 		r.ParFor(nAssign, 0, func(a int) {
@@ -569,7 +628,9 @@ func (c *ctx) assignment(cfg engineCfg, m mapping.IndexMapping, a int, ws [][]*w
 		r.Count("alias_instances:"+sh.name, 1)
 		for q := range c.qs {
 			for s := range c.ss {
-				c.family(cfg, sh.name, al, layout, where, q, s, ws[q][s], pd)
+				if ws[q][s] != nil {
+					c.family(cfg, sh.name, al, layout, where, q, s, ws[q][s], pd)
+				}
 			}
 		}
 	}
